@@ -13,4 +13,3 @@ func (s *Sim) preDelivery(m *txMeta) {
 	}
 }
 
-func (s *Sim) checkpoint(op Op) {}
